@@ -259,7 +259,10 @@ def rule_front_back(em, rep, rid):
     if 'append' in defaults and isinstance(defaults['append'], ast.Constant):
         default = defaults['append'].value
     found = 0
-    for n in own_nodes_ordered(af.node):
+    afv = af
+    if not any(isinstance(n, ast.If) and any(is_name(x, 'append') for x in ast.walk(n.test)) for n in own_nodes(af.node)):
+        afv = em.view(af)           # the branch sits in a helper that is handed the flag
+    for n in own_nodes_ordered(afv.node):
         if isinstance(n, ast.If) and (is_name(n.test, 'append') or (isinstance(n.test, ast.UnaryOp) and is_name(n.test.operand, 'append'))):
             neg = not is_name(n.test, 'append')
             end_branch, front_branch = (n.orelse, n.body) if neg else (n.body, n.orelse)
@@ -981,7 +984,7 @@ def rule_frozen_lists(em, rep, rid):
                     if pn and mn and any(cfg.g.find_path(p0, lambda z, mn=mn: z in mn, avoid=lambda z: z in fresh,
                                                          edge_ok=lambda l, a_, b_: l not in ('exc',)) is not None for p0 in pn):
                         muts.append((f, m, 'a list that has already been published to the store'))
-    rep.minimum('publishing call sites', npub, 3)
+    rep.minimum('publishing call sites', npub, 2)
     if walks and muts:
         for f, m, what in muts:
             w = walks[0]
